@@ -294,8 +294,9 @@ class BlockScan:
                 if i + 1 < len(s.v) and s.v[i + 1] == "[":
                     b0, b1 = i + 1, s.match[i + 1]
                     sink = self.sink(i, stmt_lo)
+                    skind = self.sink_kind(i, stmt_lo)
                     for kk, gg in self.index(b0 + 1, b1, g):
-                        self.uses.append(dict(k=kk, guard=list(gg), sink=sink[0], argpos=sink[1]))
+                        self.uses.append(dict(k=kk, guard=list(gg), sink=sink[0], argpos=sink[1], kind=skind))
                     i = b1 + 1; continue
                 # bare use: only as the argument of cmd.num_args( . )
                 if not (s.v[i - 1] == "(" and s.v[i - 2] == "num_args" and s.v[i + 1] == ")"):
@@ -324,6 +325,36 @@ class BlockScan:
                 raise Problem("%s: index `%s` depends on data" % (s.fname, s.txt(lo, hi)))
             return [(int(s.v[hi - 3]), g + gt), (int(s.v[hi - 1]), g + gf)]
         raise Problem("%s: index `%s[%s]` is not a literal" % (s.fname, self.pvar, s.txt(lo, hi)))
+
+    def sink_kind(self, i, stmt_lo):
+        """kind of what receives opt_parms[k] at token i, from the TYPE / callee in the source (not from variable names):
+        geom cond (Geometry constructor argument 0 / 1), matrix sym sparse sensors mesh (constructor of that type),
+        out (save/saveEEG/saveMEG), name (copied into a string, a stringstream, an interface or domain name argument)"""
+        s = self.s
+        j = i - 1; commas = 0
+        while j >= stmt_lo:
+            x = s.v[j]; k = s.k[j]
+            if k == "op" and x in CLOSE: j = s.match[j] - 1; continue
+            if k == "op" and x == "(":
+                if j - 1 >= stmt_lo and s.k[j - 1] == "id":
+                    callee = s.v[j - 1]
+                    if j - 2 >= stmt_lo and s.v[j - 2] == "." :
+                        if callee in ("save", "saveEEG", "saveMEG"): return "out"
+                        if callee in ("interface", "str"): return "name"
+                        raise Problem("%s: opt_parms passed to method `%s` of unknown meaning" % (s.fname, callee))
+                    typ = s.v[j - 2] if j - 2 >= stmt_lo and s.k[j - 2] == "id" else None
+                    if typ == "Geometry": return ["geom", "cond"][commas] if commas < 2 else "name"
+                    TY = {"Matrix": "matrix", "SymMatrix": "sym", "SparseMatrix": "sparse", "Sensors": "sensors", "Mesh": "mesh", "stringstream": "name", "string": "name"}
+                    if typ in TY and commas == 0: return TY[typ]
+                    if typ is None or typ in ("return",) or s.v[j - 2] in ("?", ":", "=", "(", ","):
+                        if callee in ("CorticalMat", "CorticalMat2") and commas == 2: return "name"
+                    raise Problem("%s: cannot tell what `%s %s(...)` does with opt_parms (argument %d)" % (s.fname, typ, callee, commas))
+                commas = 0; j -= 1; continue
+            if k == "op" and x == ",": commas += 1
+            if k == "op" and x == "=":
+                return "name"          # copied into a variable (std::string / const char*)
+            j -= 1
+        raise Problem("%s: opt_parms used in a statement of unknown shape `%s`" % (s.fname, s.txt(stmt_lo, i + 4)))
 
     def sink(self, i, stmt_lo):
         """(name, argument position) of the call/constructor/variable that receives opt_parms[k] at token i"""
@@ -359,11 +390,12 @@ HARMLESS_START = [["print_version", "("], ["cmd", ".", "print", "("], ["constexp
 def parse_tool(repo, name, rel):
     path = os.path.join(repo, rel)
     s = Src(rel, open(path).read())
-    tool = dict(name=name, file=rel, decls=[], help_exit=None, pre=[], argv_uses=[], blocks=[], unknown_exit=None, has_blocks=False, documented=[])
+    tool = dict(name=name, file=rel, decls=[], help_exit=None, pre=[], argv_uses=[], blocks=[], unknown_exit=None, has_blocks=False, documented=[], doc_lines=[])
     mf = find_function(s, "main")
     if mf is None: raise Problem("%s: no main" % rel)
     lo, hi = mf
     hf = find_function(s, "help")
+    in_args = False
     if hf is not None:
         j = hf[0]
         while j < hf[1]:
@@ -378,6 +410,11 @@ def parse_tool(repo, name, rel):
                 m = re.match(r"^\s+(-[A-Za-z][A-Za-z0-9]*(?:\s*(?:,|or|\s)\s*-[A-Za-z][A-Za-z0-9]*)*)\s*:", lit)
                 if m:
                     tool["documented"].append(re.findall(r"-[A-Za-z][A-Za-z0-9]*", m.group(1)))
+                    tool["doc_lines"].append([]); in_args = False
+                elif tool["doc_lines"]:
+                    line = lit.strip()
+                    if re.match(r"^(Arguments|Filepaths are in order)\s*:?$", line): in_args = True
+                    elif in_args and line: tool["doc_lines"][-1].append(line)
             j += 1
     consts = {}; parmlists = {}
     recognised_option_calls = 0; recognised_argc = 0
@@ -481,7 +518,7 @@ def parse_tool(repo, name, rel):
                 q = s.find_seq(["exit", "("], b0, s.match[b0])
                 if q < 0 or s.k[q + 2] != "num" or s.v[q + 3] != ")": raise Problem("%s: num_options==0 branch does not exit(literal)" % rel)
                 tool["unknown_exit"] = int(s.v[q + 2]); i = s.match[b0] + 1; continue
-            if set(ctoks) & {"argc", "help_mode"} or (not seen_work and any(d["var"] in ctoks for d in tool["decls"]) and "==" in ctoks and '""' in ctoks):
+            if set(ctoks) & {"argc", "help_mode", "unknown_argument"} or s.find_seq(["cmd", ".", "num_options", "("], c0, c1) >= 0 or (not seen_work and any(d["var"] in ctoks for d in tool["decls"]) and "==" in ctoks and '""' in ctoks):
                 # disjunction of atoms
                 conds = []; j = c0; cur = []
                 parts = []
@@ -493,6 +530,12 @@ def parse_tool(repo, name, rel):
                 for p in parts:
                     if len(p) == 3 and p[0] == "argc" and p[1] == "<" and p[2].isdigit(): conds.append(("argc_lt", int(p[2]))); recognised_argc += 1
                     elif p == ["cmd", ".", "help_mode", "(", ")"]: conds.append(("help", 0))
+                    elif p == ["const", "char", "*", "arg", "=", "cmd", ".", "unknown_argument", "(", ")"]: conds.append(("unknown", 0))
+                    elif p[:4] == ["cmd", ".", "num_options", "("] and p[-3:] == [")", ">", "1"]:
+                        inner = p[4:-3]
+                        if inner and not (inner[0] == "{" and inner[-1] == "}" and all(x == "," or (x.startswith('"') and x.endswith('"')) for x in inner[1:-1])):
+                            raise Problem("%s: num_options argument `%s` not a brace list of literals" % (rel, " ".join(inner)))
+                        conds.append(("many", [unq(x) for x in inner[1:-1] if x != ","] if inner else []))
                     elif len(p) == 3 and p[1] == "==" and p[2] == '""' and any(d["var"] == p[0] and d["kind"] == "string" for d in tool["decls"]):
                         conds.append(("empty", p[0]))
                     else: raise Problem("%s: early-return condition `%s` not recognised" % (rel, " ".join(p)))
@@ -513,6 +556,7 @@ def parse_tool(repo, name, rel):
                 if ret is None: raise Problem("%s: early-return branch on `%s` does not return a literal" % (rel, " ".join(ctoks)))
                 if s.v[nxt] == "else": raise Problem("%s: early-return with else" % rel)
                 if tool["blocks"] or seen_work: raise Problem("%s: early-return check `%s` after the work started" % (rel, " ".join(ctoks)))
+                if any(c[0] == "unknown" for c in conds): tool["_unknown_after"] = len(tool["decls"])
                 tool["pre"].append(dict(conds=conds, calls_help=calls_help, ret=ret))
                 i = nxt; continue
         # ---- anything else: one statement / block; remember positional uses
@@ -552,21 +596,130 @@ def parse_tool(repo, name, rel):
             if s.v[j] == "opt_parms": raise Problem("%s: opt_parms outside an option block" % rel)
             j += 1
         i = e + 1
+    tool["conv"] = parse_conversion(s, tool, lo, hi, rel)
     # cross-checks: every textual occurrence was accounted for
     n_opt = sum(1 for j in range(lo, hi - 2) if s.v[j:j + 3] == ["cmd", ".", "option"])
     if n_opt != recognised_option_calls:
         raise Problem("%s: %d cmd.option calls in main, %d recognised" % (rel, n_opt, recognised_option_calls))
+    if tool.pop("_unknown_after", len(tool["decls"])) != len(tool["decls"]):
+        raise Problem("%s: an option is declared after the unknown_argument() check" % rel)
     if tool["has_blocks"] and tool["unknown_exit"] is None:
         raise Problem("%s: no `if (num_options==0) exit` after the option blocks" % rel)
     if tool["argv_uses"] and tool["has_blocks"]:
         raise Problem("%s: both positional argv[k] and option blocks" % rel)
     return tool
 
+def parse_conversion(s, tool, lo, hi, rel):
+    """matrix_convert: which option variables feed the input / output format of the conversion (template `conversion`)"""
+    cf = None
+    for i in range(len(s.v) - 1):
+        if s.v[i] == "conversion" and s.k[i] == "id" and s.v[i + 1] == "(" and s.v[s.match[i + 1] + 1] == "{":
+            cf = (i + 1, s.match[i + 1], s.match[i + 1] + 1, s.match[s.match[i + 1] + 1]); break
+    if cf is None: return None
+    p0, p1, b0, b1 = cf
+    params = []; cur = []
+    for j in range(p0 + 1, p1 + 1):
+        if j == p1 or s.v[j] == ",":
+            ids = [x for x, k in zip(cur, [s.k[q] for q in range(j - len(cur), j)]) if k == "id"]
+            params.append(ids[-1]); cur = []
+        else: cur.append(s.v[j])
+    body = s.v[b0:b1]
+    def after(seq):
+        res = []
+        for j in range(b0, b1 - len(seq)):
+            if s.v[j:j + len(seq)] == seq:
+                e = s.match[j + len(seq) - 1]; res.append(s.v[j + len(seq):e])
+        return res
+    ins = after(["ifs", ">>", "maths", "::", "format", "("]); outs = after(["ofs", "<<", "maths", "::", "format", "("])
+    if len(ins) != 1 or len(ins[0]) != 1: raise Problem("%s: conversion(): input format selection not recognised" % rel)
+    named = [o for o in outs if len(o) == 1]; suff = [o for o in outs if len(o) > 1 and o[-1] == "FromSuffix"]
+    if len(named) != 1 or len(suff) != 1: raise Problem("%s: conversion(): output format selection not recognised" % rel)
+    in_p, out_p, suf_p = ins[0][0], named[0][0], suff[0][0]
+    # guards: if (P!="") ... else ...
+    for P in (in_p, out_p):
+        if s.find_seq(["if", "(", P, "!=", '""', ")"], b0, b1) < 0: raise Problem("%s: conversion(): `%s` is not tested against the empty string" % (rel, P))
+    calls = []
+    for j in range(lo, hi):
+        if s.v[j] == "conversion" and s.v[j + 1] == "<":
+            q = j + 1
+            while s.v[q] != "(": q += 1
+            args = [x for x in s.v[q + 1:s.match[q]] if x != ","]
+            calls.append(args)
+    if not calls or any(c != calls[0] for c in calls) or len(calls[0]) != len(params):
+        raise Problem("%s: the calls of conversion() differ or do not match its parameters" % rel)
+    m = dict(zip(params, calls[0]))
+    files = {}
+    for strm in ("ifs", "ofs"):
+        q = s.find_seq(["maths", "::", strm[0] + "fstream", strm, "("], lo, hi)
+        if q < 0 or s.v[q + 6:q + 10] != [".", "c_str", "(", ")"]: raise Problem("%s: stream %s not built from an option" % (rel, strm))
+        files[strm] = s.v[q + 5]
+    dv = {d["var"] for d in tool["decls"]}
+    res = dict(in_file=files["ifs"], out_file=files["ofs"], in_fmt=m[in_p], out_fmt=m[out_p], suffix=m[suf_p])
+    for k, v in res.items():
+        if v not in dv: raise Problem("%s: conversion(): `%s` (%s) is not an option variable" % (rel, v, k))
+    return res
+
+def suffix_formats(repo):
+    """(suffix, format name) pairs of the maths IO classes"""
+    res = []
+    for X in ("AsciiIO", "TrivialBinIO", "MatlabIO", "BrainVisaTextureIO"):
+        try:
+            c = open(os.path.join(repo, "OpenMEEGMaths", "src", X + ".C")).read(); h = open(os.path.join(repo, "OpenMEEGMaths", "include", X + ".H")).read()
+        except OSError: continue
+        m = re.search(X + r'::Identity\("(\w+)"\)', c)
+        if not m: continue
+        for sfx in re.findall(r'push_back\("(\w+)"\)', h): res.append((sfx, m.group(1)))
+    return res
+
+DOC_RULES = [   # (regex on the lower-cased documented line, role, kind) -- first match wins
+    (r"^\[optional (parameter|filename)", "opt", "any"),
+    (r"geometry file", "geom", "geom"), (r"conductivity file", "cond", "cond"),
+    (r"domain name", "domain", "name"), (r"name of the interface", "iface", "name"),
+    (r"^output|gainmatrix$|gain matrix", "out", "out"),
+    (r"eit electrodes", "eit", "sensors"), (r"ecog electrodes", "ecog", "sensors"), (r"eeg electrodes", "elec", "sensors"),
+    (r"meg sensors|\.squids", "squids", "sensors"),
+    (r"point positions", "points", "matrix"),
+    (r"^mesh (of|file for) ?(distributed )?sources|mesh of sources", "srcmesh", "mesh"),
+    (r"^dipoles positions", "dip", "matrix"),
+    (r"^headmatinv$", "hminv", "sym"), (r"^headmat$", "hm", "sym"), (r"^sourcemat$", "dsm", "matrix"),
+    (r"^head2eegmat$", "h2em", "sparse"), (r"^head2megmat$", "h2mm", "matrix"), (r"^source2megmat$", "ds2mm", "matrix"),
+    (r"^head2ipmat$", "h2ipm", "matrix"), (r"^source2ipmat$", "ds2ipm", "matrix"),
+]
+def classify_doc(line, rel):
+    d = line.lower()
+    for rx, role, kind in DOC_RULES:
+        if re.search(rx, d): return role, kind
+    raise Problem("%s: documented parameter `%s` not recognised" % (rel, line))
+
+def attach_docs(tool):
+    """documented parameter order of every option block, from the lines its help text prints"""
+    rel = tool["file"]
+    for b in tool["blocks"]:
+        grp = [k for k, g in enumerate(tool["documented"]) if any(a in b["aliases"] for a in g)]
+        if not grp:
+            b["doc"] = None; continue          # an option the help text does not mention (reported by the check as undocumented)
+        lines = []
+        for l in tool["doc_lines"][grp[0]]:
+            parts = [x.strip() for x in l.split(",")]
+            if len(parts) > 1 and all(re.match(r"^[A-Za-z0-9]+$", x) for x in parts): lines += parts
+            else: lines.append(l)
+        if lines and re.match(r"^(bin Matrix|Matrix \(.*\))$", lines[-1]): lines.pop()      # a remark on the format, not a parameter
+        doc = []
+        for n, l in enumerate(lines):
+            role, kind = classify_doc(l, rel)
+            optional = l.lower().startswith(("[optional", "(optional")) or (n < len(b["parms"]) and b["multi"] and b["parms"][n].startswith("["))
+            doc.append(dict(text=l, role=role, kind=kind, optional=optional))
+        if len(doc) < len(b["parms"]):
+            raise Problem("%s: option %s: the help text documents %d parameters, the parser expects %d" % (rel, b["aliases"][0], len(doc), len(b["parms"])))
+        b["doc"] = doc
+
 def parse_all(repo):
     tools = []; problems = []
     for name, rel in TOOLS:
         try:
-            tools.append(parse_tool(repo, name, rel))
+            t = parse_tool(repo, name, rel)
+            attach_docs(t)
+            tools.append(t)
         except Problem as e:
             problems.append(str(e))
         except (IndexError, KeyError) as e:
@@ -587,6 +740,9 @@ def clist(xs): return "[" + "; ".join(xs) + "]"
 def catom(a): return {"eq": "AEq", "ne": "ANe", "ge": "AGe", "lt": "ALt"}[a[0]] + " " + str(a[1])
 def cz(n): return "(%d)%%Z" % n
 
+PK = {"geom": "PGeom", "cond": "PCond", "matrix": "PMatrix", "sym": "PSym", "sparse": "PSparse", "sensors": "PSensors",
+      "mesh": "PMesh", "name": "PName", "out": "POut", "any": "PAny"}
+
 def emit(tools):
     CSTR.clear()
     o = []
@@ -605,21 +761,28 @@ def emit(tools):
             for c in p["conds"]:
                 if c[0] == "argc_lt": cs.append("CArgcLt %d" % c[1])
                 elif c[0] == "help": cs.append("CHelp")
+                elif c[0] == "unknown": cs.append("CUnknown")
+                elif c[0] == "many": cs.append("CManyOptions %s" % clist([cstr(x) for x in c[1]]))
                 else: cs.append("CEmpty %s" % cstr(c[1]))
             pcs.append("{| pc_conds := %s; pc_calls_help := %s; pc_ret := %s |}" % (clist(cs), "true" if p["calls_help"] else "false", cz(p["ret"])))
         o.append("  t_pre := %s;" % clist(pcs))
         o.append("  t_argv_uses := %s;" % clist(["(%d, %s)" % (u["k"], cstr(u["sink"])) for u in t["argv_uses"]]))
         bl = []
         for b in t["blocks"]:
-            us = ["{| u_k := %d; u_guard := %s; u_sink := %s; u_argpos := %d |}" % (u["k"], clist([catom(a) for a in u["guard"]]), cstr(u["sink"]), u["argpos"]) for u in b["uses"]]
-            bl.append("{| b_aliases := %s;\n       b_multi := %s;\n       b_parms := %s;\n       b_variant := %s;\n       b_uses := %s |}" % (
+            us = ["{| u_k := %d; u_guard := %s; u_sink := %s; u_argpos := %d; u_kind := %s |}" % (u["k"], clist([catom(a) for a in u["guard"]]), cstr(u["sink"]), u["argpos"], PK[u["kind"]]) for u in b["uses"]]
+            bl.append("{| b_aliases := %s;\n       b_multi := %s;\n       b_parms := %s;\n       b_variant := %s;\n       b_doc := %s;\n       b_uses := %s |}" % (
                 clist([cstr(a) for a in b["aliases"]]), "true" if b["multi"] else "false", clist([cstr(p) for p in b["parms"]]),
-                clist([cstr(a) for a in b["variant"]]), clist(us)))
+                clist([cstr(a) for a in b["variant"]]),
+                clist(["(%s, %s)" % (PK[d["kind"]], "true" if d["optional"] else "false") for d in (b.get("doc") or [])]), clist(us)))
         o.append("  t_blocks := [" + ";\n    ".join(bl) + "];")
         o.append("  t_unknown_exit := %s;" % ("None" if t["unknown_exit"] is None else "Some " + cz(t["unknown_exit"])))
-        o.append("  t_documented := %s |}." % clist([cstr(a) for grp in t["documented"] for a in grp]))
+        o.append("  t_documented := %s;" % clist([cstr(a) for grp in t["documented"] for a in grp]))
+        cv = t.get("conv")
+        o.append("  t_conv := %s |}." % ("None" if not cv else "Some {| cv_in_file := %s; cv_out_file := %s; cv_in_fmt := %s; cv_out_fmt := %s; cv_suffix := %s |}" % tuple(cstr(cv[k]) for k in ("in_file", "out_file", "in_fmt", "out_fmt", "suffix"))))
         o.append("")
     o.append("Definition gen_tools : list tool := %s." % clist(names))
+    o.append("(* file suffix -> format name, from the maths IO classes *)")
+    o.append("Definition gen_suffix_formats : list (tok * tok) := %s." % clist(["(%s, %s)" % (cstr(a), cstr(b)) for a, b in SUFFIX_FORMATS]))
     head = ["(* GENERATED by translators/t_cli.py from the command-line tools of the working tree -- do not edit. *)",
             "From Coq Require Import List ZArith.", "From OM Require Import Geom.Cli.", "Import ListNotations.",
             "Local Open Scope Z_scope.", "", "(* C strings of the sources as byte lists *)"]
@@ -630,10 +793,14 @@ def emit(tools):
     head.append("")
     return "\n".join(head + o) + "\n"
 
+SUFFIX_FORMATS = []
+
 def generate(repo_root, out_dir):
     sys.path.insert(0, os.path.join(os.path.dirname(os.path.dirname(os.path.abspath(__file__))), "lib"))
     import gencoq
     tools, problems = parse_all(repo_root)
+    SUFFIX_FORMATS[:] = suffix_formats(repo_root)
+    if not SUFFIX_FORMATS: problems.append("no suffix/format table found in the maths IO classes")
     try:
         txt = emit(tools)
     except Problem as e:
